@@ -1,9 +1,236 @@
-(* C06 - node allocator: no aliasing, hibernation lossless.  Statements closed by [exact]. *)
-From Coq Require Import List NArith ZArith.
-From Herc Require Import Alloc.Varint Alloc.Model Alloc.Serialize.
+(* C06 - node allocator of internal/rbtree: no aliasing of nodes, used count, Clone, lossless
+   hibernation in memory and through a file, refusal while hibernated.
+   Only statements, each closed by [exact] of a lemma of Herc.Alloc.*, and their assumptions.
+
+   Vocabulary (Herc.Alloc.Model): [alloc] is the allocator state; a [world] is one allocator plus the
+   table [owned] saying which owner (tree) holds which node id; [step] applies one operation of one
+   owner (malloc with the map-iteration choice made explicit / free of an own node / write to an own
+   cell), a threshold change, Hibernate or Boot; [reachable] closes [init_world] (NewAllocator) under
+   [step] and under Allocator.Clone.  [liveb a id]: id is inside the arena, not slot 0, not a gap.
+
+   LZ4 (lz4hc.c) is external C code: [compress]/[decompress] are Section variables and the two
+   hypotheses below are the recorded assumptions about it; the harness exercises them on every
+   buffer the implementation produces. *)
+From Coq Require Import List NArith ZArith Sorted.
+From Herc Require Import Alloc.Varint Alloc.Model Alloc.Serialize Alloc.Proofs Alloc.Hibernate Alloc.SerializeProofs.
 Import ListNotations.
 
+Section C06.
+  Variable compress : list N -> list N.
+  Variable decompress : list N -> nat -> list N.
+  Hypothesis lz4_ok : forall l, l <> [] -> compress l <> [] /\ decompress (compress l) (length l) = l.
+  Hypothesis lz4_small : forall l, (N.of_nat (length (compress l)) < 2 ^ 63)%N.
+
+  Notation reachable := (reachable compress decompress).
+  Notation step := (step compress decompress).
+  Notation run := (run compress decompress).
+  Notation hibernate := (hibernate compress).
+  Notation boot := (boot decompress).
+
+  (* every state produced by a sequence of operations from NewAllocator is reachable *)
+  Theorem C06_run_reachable : forall ops, reachable (run ops init_world).
+  Proof. exact (fun ops => run_reachable compress decompress ops init_world (r_init compress decompress)). Qed.
+
+  (* the index malloc returns is not 0, was not live, is live afterwards, and nobody held it *)
+  Theorem C06_malloc_fresh : forall w ch a' id, reachable w -> malloc ch (wa w) = Ok (a', id) ->
+    id <> 0%N /\ liveb (wa w) id = false /\ liveb a' id = true /\ (forall o, owns w o id = false).
+  Proof. exact (malloc_fresh compress decompress lz4_ok). Qed.
+
+  (* in every reachable state: no id has two owners, no owner holds an id twice, every owned id is a
+     live cell (of the arena that Boot restores, while the allocator is asleep) *)
+  Theorem C06_no_alias : forall w, reachable w ->
+    (forall o1 o2 id, owns w o1 id = true -> owns w o2 id = true -> o1 = o2) /\
+    NoDup (map fst (owned w)) /\
+    (forall o id, owns w o id = true ->
+       match storage (wa w) with
+       | Some _ => liveb (wa w) id = true
+       | None => exists a1, boot (wa w) = Ok a1 /\ liveb a1 id = true
+       end).
+  Proof. exact (no_alias compress decompress lz4_ok). Qed.
+
+  (* an operation of another owner neither changes my cells nor takes them away *)
+  Theorem C06_frame : forall w x o1 o2 id, reachable w -> owns w o1 id = true -> op_owner x = Some o2 -> o2 <> o1 ->
+    nth (N.to_nat id) (slist (wa (step w x))) zero_cell = nth (N.to_nat id) (slist (wa w)) zero_cell /\
+    owns (step w x) o1 id = true.
+  Proof. exact (frame compress decompress lz4_ok). Qed.
+
+  (* Used() = number of owned (= live) nodes + the reserved slot once the arena is non-empty; the live
+     cells are exactly the owned ones (nothing leaks) *)
+  Theorem C06_used : forall w, reachable w -> storage (wa w) <> None ->
+    used (wa w) = Ok (if (size (wa w) =? 0)%Z then 0%Z else (Z.of_nat (length (owned w)) + 1)%Z) /\
+    (forall id, liveb (wa w) id = true <-> exists o, owns w o id = true).
+  Proof. exact (used_count compress decompress lz4_ok). Qed.
+
+  (* Clone copies threshold, storage and gap set, the copy starts awake; afterwards the two evolve
+     independently: the result for each side is the run of its own operations alone *)
+  Theorem C06_clone_frame : forall a c, clone a = Ok c ->
+    (storage c = storage a /\ gaps c = Some (glist a) /\ thr c = thr a /\
+     hslen c = 0%Z /\ hglen c = 0%Z /\ hdata c = repeat None 7) /\
+    forall ow ops,
+      fold_left (step2 compress decompress) ops (mkworld a ow, mkworld c ow) =
+      (run (proj SideL ops) (mkworld a ow), run (proj SideR ops) (mkworld c ow)).
+  Proof. exact (clone_frame compress decompress). Qed.
+
+  (* at or above the threshold and non-empty: Hibernate empties the allocator, Boot restores exactly
+     the cells, the gap set, the threshold, and clears the hibernation lengths *)
+  Theorem C06_boot_hibernate : forall w, reachable w -> storage (wa w) <> None ->
+    (thr (wa w) <= size (wa w))%Z -> (0 < size (wa w))%Z ->
+    exists h a', hibernate (wa w) = Ok h /\
+      storage h = None /\ gaps h = None /\ hslen h = size (wa w) /\ thr h = thr (wa w) /\
+      boot h = Ok a' /\
+      storage a' = storage (wa w) /\ gaps a' = gaps (wa w) /\ thr a' = thr (wa w) /\
+      hslen a' = 0%Z /\ hglen a' = 0%Z.
+  Proof. exact (boot_hibernate compress decompress lz4_ok). Qed.
+
+  (* below the threshold, and for the empty arena, Hibernate and Boot leave the allocator untouched *)
+  Theorem C06_below_threshold : forall a, ~ (0 < hslen a)%Z -> (size a < thr a)%Z -> hibernate a = Ok a.
+  Proof. exact (hibernate_below compress). Qed.
+
+  Theorem C06_empty_untouched : forall a, hslen a = 0%Z -> slist a = [] -> hibernate a = Ok a /\ boot a = Ok a.
+  Proof. exact (fun a H1 H2 => conj (hibernate_empty compress a H1 H2) (boot_awake decompress a H1)). Qed.
+
+  (* use while hibernated is refused and changes nothing *)
+  Theorem C06_refused : forall a, storage a = None ->
+    used a = Panic PHibUse /\ clone a = Panic PCloneHib /\
+    (forall ch, malloc ch a = Panic PHibUse) /\ (forall n, free n a = Panic PHibUse) /\
+    (forall n c, write_cell n c a = Panic PIndex).
+  Proof.
+    exact (fun a H => conj (refused_used a H) (conj (refused_clone a H)
+             (conj (fun ch => refused_malloc a ch H) (conj (fun n => refused_free a n H) (fun n c => refused_write a n c H))))).
+  Qed.
+
+  Theorem C06_refused_twice : forall a, (0 < hslen a)%Z -> hibernate a = Panic PAlreadyHib.
+  Proof. exact (refused_hibernate compress). Qed.
+
+  Theorem C06_refused_boot_serialized : forall a, hslen a <> 0%Z -> nth 0 (hdata a) None = None ->
+    boot a = Panic PBootSerialized.
+  Proof. exact (refused_boot decompress). Qed.
+
+  Theorem C06_refused_step : forall w x, storage (wa w) = None -> op_owner x <> None -> step w x = w.
+  Proof. exact (refused_step compress decompress). Qed.
+
+  Theorem C06_refused_awake_file : forall a s f, storage a = Some s ->
+    serialize a = Panic PSerAwake /\ serialize_fail a = Panic PSerAwake /\ deserialize a f = Panic PDeserAwake.
+  Proof.
+    exact (fun a s f H => conj (proj1 (serialize_awake a s H)) (conj (proj2 (serialize_awake a s H)) (deserialize_awake a s f H))).
+  Qed.
+
+  (* Hibernate, Serialize, Deserialize, Boot: Boot is refused while the buffers are on disk only; every
+     strict prefix of the file is rejected with an error; the whole file - read into any hibernated
+     allocator, for instance one that a failed attempt left half filled - boots into the same arena *)
+  Theorem C06_disk_roundtrip : forall w, reachable w -> storage (wa w) <> None ->
+    (thr (wa w) <= size (wa w))%Z -> (0 < size (wa w))%Z ->
+    exists h h1 bytes,
+      hibernate (wa w) = Ok h /\ storage h = None /\
+      serialize h = Ok (h1, bytes) /\
+      boot h1 = Panic PBootSerialized /\
+      (forall k ax, (k < length bytes)%nat -> storage ax = None ->
+         exists ax' e, deserialize ax (Some (firstn k bytes)) = Ok (ax', Some e)) /\
+      (forall ax, storage ax = None -> length (hdata ax) = 7%nat ->
+         exists h2 a', deserialize ax (Some bytes) = Ok (h2, None) /\
+           boot h2 = Ok a' /\
+           storage a' = storage (wa w) /\ gaps a' = gaps (wa w) /\ thr a' = thr ax /\
+           hslen a' = 0%Z /\ hglen a' = 0%Z).
+  Proof. exact (disk_roundtrip compress decompress lz4_ok lz4_small). Qed.
+End C06.
+
+(* the file format on its own (no assumption on LZ4) *)
 Theorem C06_varint_roundtrip : forall n rest, (n < 2 ^ 63)%N ->
   read_varint (write_varint n ++ rest) = VOk n rest.
 Proof. exact varint_roundtrip. Qed.
+
+Theorem C06_varint_truncated : forall n k, (k < length (write_varint n))%nat ->
+  read_varint (firstn k (write_varint n)) = VEof.
+Proof. exact varint_truncated. Qed.
+
+(* deserialize (serialize h) = Ok h: lengths and the seven buffers come back (nil buffers as empty
+   ones), trailing bytes are ignored, whatever the receiving hibernated allocator held before *)
+Theorem C06_file_roundtrip : forall a, storage a = None -> file_ok a ->
+  exists a1 bytes, serialize a = Ok (a1, bytes) /\
+    storage a1 = None /\ hdata a1 = repeat None 7 /\ hslen a1 = hslen a /\ hglen a1 = hglen a /\ thr a1 = thr a /\
+    forall ax rest, storage ax = None -> length (hdata ax) = 7%nat ->
+      deserialize ax (Some (bytes ++ rest)) =
+      Ok (mkalloc (thr ax) None (gaps ax) (reread (hdata a)) (hslen a) (hglen a), None).
+Proof. exact file_roundtrip. Qed.
+
+(* every strict prefix of a serialized file is rejected with an error - never a wrong value *)
+Theorem C06_truncated : forall a, storage a = None -> file_ok a ->
+  forall a1 bytes, serialize a = Ok (a1, bytes) ->
+  forall k ax, (k < length bytes)%nat -> storage ax = None ->
+    exists ax' e, deserialize ax (Some (firstn k bytes)) = Ok (ax', Some e).
+Proof. exact file_truncated. Qed.
+
+Theorem C06_missing_file : forall a, storage a = None -> deserialize a None = Ok (a, Some EOpen).
+Proof. exact deserialize_nofile. Qed.
+
+Print Assumptions C06_run_reachable.
+Print Assumptions C06_malloc_fresh.
+Print Assumptions C06_no_alias.
+Print Assumptions C06_frame.
+Print Assumptions C06_used.
+Print Assumptions C06_clone_frame.
+Print Assumptions C06_boot_hibernate.
+Print Assumptions C06_below_threshold.
+Print Assumptions C06_empty_untouched.
+Print Assumptions C06_refused.
+Print Assumptions C06_refused_twice.
+Print Assumptions C06_refused_boot_serialized.
+Print Assumptions C06_refused_step.
+Print Assumptions C06_refused_awake_file.
+Print Assumptions C06_disk_roundtrip.
 Print Assumptions C06_varint_roundtrip.
+Print Assumptions C06_varint_truncated.
+Print Assumptions C06_file_roundtrip.
+Print Assumptions C06_truncated.
+Print Assumptions C06_missing_file.
+
+(* ---------------------------------------------------------------------------------------------
+   Non-vacuity: a toy codec satisfies the two LZ4 hypotheses, and a concrete history with two
+   owners, a re-used gap, a threshold and a hibernation meets the hypotheses of the theorems. *)
+Definition toy_compress (l : list N) : list N := 255%N :: l.
+Definition toy_decompress (d : list N) (n : nat) : list N := firstn n (tl d).
+
+Example C06_toy_codec_ok : forall l, l <> [] -> toy_compress l <> [] /\ toy_decompress (toy_compress l) (length l) = l.
+Proof. intros l _. split; [discriminate|]. unfold toy_decompress, toy_compress. cbn [tl]. apply firstn_all. Qed.
+
+Definition history : list op :=
+  [OMalloc 0 0; OMalloc 1 0; OMalloc 0 0; OWrite 0 1 (mkcell 5 50 0 0 3 true); OWrite 1 2 (mkcell 7 70 0 0 0 true);
+   OFree 0 3; OMalloc 1 5; OMalloc 0 0; OFree 1 3; OSetThr 4].
+
+Example C06_history_state :
+  let w := run toy_compress toy_decompress history init_world in
+  storage (wa w) <> None /\ (thr (wa w) <= size (wa w))%Z /\ (0 < size (wa w))%Z /\
+  size (wa w) = 5%Z /\ gaps (wa w) = Some [3%N] /\ used (wa w) = Ok 4%Z /\
+  ids_of w 0 = [4%N; 1%N] /\ ids_of w 1 = [2%N] /\
+  (exists a' id, malloc 0 (wa w) = Ok (a', id) /\ id = 3%N).
+Proof. vm_compute. repeat split; try discriminate; eauto. Qed.
+
+Example C06_history_hibernates :
+  let w := run toy_compress toy_decompress history init_world in
+  match hibernate toy_compress (wa w) with
+  | Ok h =>
+      storage h = None /\ hslen h = 5%Z /\ hglen h = 1%Z /\
+      used h = Panic PHibUse /\ hibernate toy_compress h = Panic PAlreadyHib /\
+      match serialize h with
+      | Ok (h1, bytes) =>
+          length bytes = 47%nat /\ firstn 4 bytes = [5%N; 1%N; 6%N; 255%N] /\
+          boot toy_decompress h1 = Panic PBootSerialized /\
+          match deserialize h1 (Some (firstn 46 bytes)) with Ok (_, Some _) => True | _ => False end /\
+          match deserialize h1 (Some bytes) with
+          | Ok (h2, None) =>
+              match boot toy_decompress h2 with
+              | Ok a' => storage a' = storage (wa w) /\ gaps a' = gaps (wa w)
+              | _ => False
+              end
+          | _ => False
+          end
+      | _ => False
+      end
+  | _ => False
+  end.
+Proof. vm_compute. repeat split. Qed.
+
+Example C06_below_threshold_state :
+  let a := with_thr (wa (run toy_compress toy_decompress history init_world)) 6 in
+  ~ (0 < hslen a)%Z /\ (size a < thr a)%Z /\ hibernate toy_compress a = Ok a.
+Proof. vm_compute. repeat split; intros H; discriminate. Qed.
